@@ -8,6 +8,8 @@ import Genq.Model.TypeMap
 import Genq.Model.Imports
 import Genq.Model.Conv
 import Genq.Props.C09
+import Genq.Model.ConvSkel
+import Genq.Extracted.Conv
 
 namespace Genq.TypeMap
 
@@ -220,3 +222,10 @@ theorem C01_generic_breaks_view :
   decide
 
 end Genq.Conv
+
+namespace Genq
+
+/-- **C01_imports_tie** — addImportFor / ref, as in /repo now (regenerated on every run), equal to the copy the model was written from -/
+theorem C01_imports_tie : Extracted.importsSkeleton = ConvSkel.importsSkeleton := rfl
+
+end Genq
